@@ -1231,3 +1231,17 @@ Proof.
   { unfold inv, abcdefg, buf; cbn. rewrite W64_val. repeat split; try lia. }
   split; [apply inv_init|]. vm_compute. repeat split.
 Qed.
+
+(* for C07 (allocation failure), as found at read time: a failed a_str_catv reports 0 and keeps the
+   byte string, but the first vsnprintf pass has already overwritten the terminator with text *)
+Example ex_catv_failure_keeps_content_not_terminator :
+  let s := mkStr (Some [97;98;99;0;165;165;165;165]) 3 8 in
+  terminated s /\
+  exists s', catv s [48;49;50;51;52;53;54;55;56;57;65;66;67;68;69;70] [false]
+             = Some (0%Z, s', [], [EvRealloc 8 24 false]) /\
+             content s' = content s /\ buf s' = [97;98;99;48;49;50;51;0] /\ ~ terminated s'.
+Proof.
+  split; [split; [cbn; lia|reflexivity]|].
+  eexists. split; [vm_compute; reflexivity|]. split; [reflexivity|]. split; [reflexivity|].
+  intros [_ H]. vm_compute in H. discriminate.
+Qed.
